@@ -28,7 +28,7 @@ var t24501Extra8321 = map[int64]int64{
 }
 
 func c12(c *core.Ctx) map[string]interface{} {
-	c.Explanation = "Static table/offset/termination check of the hand-written extractors in stgutg/pdu.go (C12). Decided: (R12.tab) the optional-IE length table and the half-octet list of DecodePDUSessionNASPDU agree, row by row, with the library's own PDU SESSION ESTABLISHMENT ACCEPT codec (IEI, fixed size resp. one/two length octets - the writer's and the reader's tables agree) and with TS 24.501 table 8.3.2.1.1 for the five IEIs the library does not know; (R12.off) every fixed offset, expressed as a linear form so that regrouping constants does not matter, equals the layout computed from the library's message definitions: 7-octet security header, DL NAS TRANSPORT payload-container length at octet 4, QoS-rules length at octet 5 of the Accept, optional part starting 14 + QoS-rules length octets in, PDU address value at IEI+3..IEI+7 and matched by the library's IEI 0x29; in the transfer walk the IE id is compared with ProtocolIEIDULNGUUPTNLInformation at IE-aligned positions (start 3, stride id 2 + criticality 1 + length 1 + length), TEID = last 4 octets and address = the 4 octets before; (R12.term) on every path through both loops the index strictly increases or the loop is left (lower bounds from an interval analysis that models wrap-around of narrow integer arithmetic). (R12.tight) no extraction slice is guarded by a bound one octet stricter than it needs (directly or through an inclusive-position helper given the exclusive end); (R2.report) EstablishPDU hands the PDU Session NAS-PDU and the transfer of item 0 of the received setup list - and nothing else - to the two extractors and returns their results, which main registers with the data plane. (components) the rule set of C04 (with C03) is part of this check: the extractors read what ngap.Decoder makes of the request, and a well-formed request the decoder refuses or mis-reads is never extracted correctly. NOT decided: equality of the returned values for all network encodings (e.g. a length determinant above 127 in the transfer), behaviour on truncated input (a panic terminates); R12.pos (positional access List[2]) is informational."
+	c.Explanation = "Static table/offset/termination check of the hand-written extractors in stgutg/pdu.go (C12). Decided: (R12.tab) the optional-IE length table and the half-octet list of DecodePDUSessionNASPDU agree, row by row, with the library's own PDU SESSION ESTABLISHMENT ACCEPT codec (IEI, fixed size resp. one/two length octets - the writer's and the reader's tables agree) and with TS 24.501 table 8.3.2.1.1 for the five IEIs the library does not know; (R12.off) every fixed offset, expressed as a linear form so that regrouping constants does not matter, equals the layout computed from the library's message definitions: 7-octet security header, DL NAS TRANSPORT payload-container length at octet 4, QoS-rules length at octet 5 of the Accept, optional part starting 14 + QoS-rules length octets in, PDU address value at IEI+3..IEI+7 and matched by the library's IEI 0x29; in the transfer walk the IE id is compared with ProtocolIEIDULNGUUPTNLInformation at IE-aligned positions (start 3, stride id 2 + criticality 1 + length 1 + length), TEID = last 4 octets and address = the 4 octets before; (R12.term) on every path through both loops the index strictly increases or the loop is left (lower bounds from an interval analysis that models wrap-around of narrow integer arithmetic). (R12.tight) no extraction slice is guarded by a bound one octet stricter than it needs (directly or through an inclusive-position helper given the exclusive end); (R2.report) EstablishPDU hands the PDU Session NAS-PDU and the transfer of item 0 of the received setup list - and nothing else - to the two extractors and returns their results, which main registers with the data plane. (components) the rule set of C04 (with C03) is part of this check: the extractors read what ngap.Decoder makes of the request, and a well-formed request the decoder refuses or mis-reads is never extracted correctly. (how) the two walks are read off ONE symbolic iteration of their loops (cursor and every other loop-carried value replaced by names; affine normal form of the index arithmetic): R12.off per element identifier - the cursor advances by what that element's format asks for (fixed size / 2+length octet / 3+two length octets / 1 for a half-octet IE), a way back to the loop head that has not identified the element is a violation; the transfer walk starts at 3, advances by 4+transfer[cursor+3], stops at id 139 and takes TEID/address from cursor+4+length-4.. / -8..; R12.term: the constant part of every advance is >= 1 and no operand is negative. NOT decided: equality of the returned values for all network encodings (e.g. a length determinant above 127 in the transfer), behaviour on truncated input (a panic terminates); R12.pos (positional access List[2]) is informational."
 	c.Assumptions = []string{"the Accept is carried in a protected DL NAS TRANSPORT as payload container (the emulator's use)", "APER encoding of the transfer: 1 preamble octet + 2-octet container length, each IE = id(2) criticality(1) length(1, < 128) value"}
 	m := buildNasModel(c)
 	r12tab(c, m)
